@@ -93,6 +93,7 @@ type frame struct {
 	names    map[*ssa.BasicBlock]map[string]ssa.Value // source-level variable -> current SSA value at block end
 	curNames map[string]ssa.Value
 	callOrd  map[*ssa.Call]string // "callee#k" by source order
+	allocByPos map[token.Pos]*ssa.Alloc
 }
 
 type loopState struct {
@@ -103,6 +104,8 @@ type loopState struct {
 	memHead  map[string]Term
 	decPre   Term
 	rangeIdx *ssa.Phi
+	visCur   Term // the visited-keys ghost of a map range, as seen by the clause being translated
+	rng      *rangeState
 }
 
 type rangeState struct {
@@ -111,6 +114,7 @@ type rangeState struct {
 	mt      *types.Map
 	visited Term // at loop header (havoced)
 	dom0    Term
+	curKey  Term
 }
 
 type enc struct {
